@@ -76,6 +76,21 @@ def basename_rule(ctx, r, fnpath=None, key="basename", candidate=True):
         r.ok(key + "|none", "None only for an empty path or after the final component was located (%s)" % ", ".join(verdicts), fn=f)
     if not candidate:
         return
+    # ... and the basename is the suffix of the *whole* path after its last '/': whatever the full-path strategies and the
+    # regex see after the last separator (including nothing at all for a path ending in '/')
+    whole = [c for c in seps if not any(is_call(x, "core::ops::index::Index::index", "[T]::get", "[T]::strip_suffix", "[T]::split_at",
+                                                  "[T]::split_last") for x in walk(eb.operand(c.args[0])))]
+    idx = [c for c in f.calls() if c.path == "core::ops::index::Index::index"]
+    open_ended = [c for c in idx if any(x.k == "agg" and x[1].endswith("RangeFrom") for x in walk(eb.operand(c.args[1])))]
+    bounded = [c for c in idx if any(x.k == "agg" and x[1].split("::")[-1] in ("Range", "RangeTo", "RangeInclusive", "RangeToInclusive")
+                                     for x in walk(eb.operand(c.args[1])))]
+    trunc = [c for c in f.calls() if c.path.split("::")[-1] in ("truncate", "pop", "strip_suffix", "trim_end_with", "split_last")]
+    if seps and len(whole) == len(seps) and open_ended and not bounded and not trunc:
+        r.ok(key + "|suffix", "basename = path[last '/' + 1 ..] of the whole path", fn=f)
+    else:
+        r.bad(key + "|suffix", "pathutil::file_name does not return the suffix of the whole path after its last '/' (it searches or "
+              "cuts a shortened path): for such paths the basename-scoped strategies of a set see another name than the "
+              "full-path strategies and the member globs", fn=f, construct="file_name")
     cn = facts.fn(CAND + "::new")
     if cn.calls_to(G + "::pathutil::file_name"):
         r.ok("basename|candidate", "Candidate::new takes its basename from pathutil::file_name", fn=cn, nontrivial=False)
@@ -333,7 +348,7 @@ def run(ctx):
                 else:
                     r.ok(key, "Literal(%r) ⇒ None on every path (%d test(s))" % (ch, len(in_loop)), fn=f)
 
-    with ctx.rule("C12.BASENAME", "a path gets no basename only when it is empty or its final component was examined", floor=2,
+    with ctx.rule("C12.BASENAME", "a path gets no basename only when it is empty or its final component was examined; the basename is the whole tail", floor=3,
                   kind="GUARD") as r:
         basename_rule(ctx, r)
     with ctx.rule("C12.MERGE", "indices sorted and de-duplicated after the strategy loop", floor=1, kind="PASS") as r:
